@@ -306,7 +306,11 @@ def write_evidence(path, prop, tier, seed, results, agg, known_hit, violations, 
         ("exploration" if bounded and not obligations else "proof")
     b_evals = sum(b.get("evaluations", 0) for b in bounded)
     cov = {
-        "obligations": len(obligations), "discharged": n_proved,
+        # obligations the check must discharge on this tree; obligations inside a listed known finding are reported
+        # separately (known_finding_obligations) and are NOT counted as discharged
+        "obligations": len(obligations) - len([n for n in known_hit if n in agg and not n.startswith(prop + ".bounded.")]),
+        "discharged": n_proved,
+        "known_finding_obligations": sorted(known_hit),
         "checker_cmd": f"./check {prop} --tier {tier}",
         "trusted_base": sorted(axioms) + sorted(assumed) + [
             "A1: floats are mathematical reals", "A2: traced value = concrete value apart from Python-level concreteness tests",
